@@ -1,2 +1,107 @@
--- stub: replaced by the model driver of this property
-def main : IO Unit := pure ()
+import SdcModel.Basic.Io
+import SdcModel.Location
+open Sdc Sdc.Location Sdc.Url Sdc.Hex
+
+/-! ops (strings as `x<hex of utf-8>`, `-` = None, flag `1`/`0` = did the real `urlsplit` accept the netloc):
+  `scope <root> <fac> <bldng> <flr> <poc> <rm> <bed>`      -> `ok <scope string>`
+  `pub <root> <fac> … <bed>`                               -> `ok <published scope>` | `err ValueError`
+  `parse <flag> <scope>`                                   -> `ok <root> <fac> … <bed>` | `err <class>`
+  `match <flag> <root> <fac> … <bed> <scope>`              -> `ok True|False` | `err <class>`
+  `filter <root> <fac> … <bed> <svc>*`   svc = `N` | `S` | `S<flag><scope>,<flag><scope>…`  -> `ok <indices>` | `err <class>`
+  `split <flag> <url>`  -> `ok <scheme> <netloc> <path> <query> <fragment>` | `err ValueError`
+  `qsl <keep> <qs>`     -> `ok <k>=<v> …`
+  `utf8 <bytes>`        -> `valid` | `repaired <bytes>`
+  `quote <s>` | `quoteplus <s>` | `quoteslash <s>` | `unquote <s>` -> `ok <s>`            -/
+
+def errName : Err → String
+  | .urlScheme => "err UrlSchemeError"
+  | .valueError => "err ValueError"
+
+def parseLoc (ws : List String) : Option Loc :=
+  match ws with
+  | [r, a, b, c, d, e, f] =>
+    match ofArg r, ofOptArg a, ofOptArg b, ofOptArg c, ofOptArg d, ofOptArg e, ofOptArg f with
+    | some r, some a, some b, some c, some d, some e, some f => some ⟨r, a, b, c, d, e, f⟩
+    | _, _, _, _, _, _, _ => none
+  | _ => none
+
+def showLoc (l : Loc) : String :=
+  " ".intercalate (toArg l.root :: (l.elems.map fun e => toOptArg e.2))
+
+def flag? (s : String) : Option Bool := if s = "1" then some true else if s = "0" then some false else none
+
+/-- `S1x41,0x42` -> scopes with their flags -/
+def parseSvc (s : String) : Option (Option (List (Bool × Bytes))) :=
+  if s = "N" then some none
+  else if s = "S" then some (some [])
+  else match s.toList with
+    | 'S' :: rest =>
+      ((String.ofList rest).splitOn ",").mapM (fun (item : String) =>
+        match item.toList with
+        | '1' :: cs => (ofArg (String.ofList cs)).map (fun x => (true, x))
+        | '0' :: cs => (ofArg (String.ofList cs)).map (fun x => (false, x))
+        | _ => none) |>.map some
+    | _ => none
+
+/-- netloc the model sees in a url (to turn the per-scope flags into one `chk : netloc → Bool`) -/
+def netlocOf (s : Bytes) : Bytes := (splitNetloc (splitScheme (cleanUrl s)).2).1
+
+def filterIdx (self : Loc) (svcs : List (Option (List (Bool × Bytes)))) : Except Err (List Nat) :=
+  let rejected : List Bytes := svcs.flatMap fun s => match s with
+    | none => []
+    | some scs => scs.filterMap fun p => if p.1 then none else some (netlocOf p.2)
+  let chk : Bytes → Bool := fun nl => !rejected.contains nl
+  let indexed : List (Nat × Option (List Bytes)) := (List.range svcs.length).zip (svcs.map fun s => s.map fun scs => scs.map (·.2))
+  (filterInside chk self (fun (p : Nat × Option (List Bytes)) => p.2) indexed).map fun r => r.map (·.1)
+
+def stepLine (st : Unit) (line : String) : Unit × String :=
+  (st, match Io.words line with
+  | "scope" :: rest => match parseLoc rest with
+    | some l => "ok " ++ toArg (scopeString l)
+    | none => "bad-op"
+  | "pub" :: rest => match parseLoc rest with
+    | some l => match published l with
+      | .ok s => "ok " ++ toArg s
+      | .error e => errName e
+    | none => "bad-op"
+  | ["parse", f, s] => match flag? f, ofArg s with
+    | some f, some s => match fromScopeString (fun _ => f) s with
+      | .ok l => "ok " ++ showLoc l
+      | .error e => errName e
+    | _, _ => "bad-op"
+  | ["match", f, r, a, b, c, d, e, g, s] => match flag? f, parseLoc [r, a, b, c, d, e, g], ofArg s with
+    | some f, some l, some s => match scopeStringMatches (fun _ => f) l s with
+      | .ok b => if b then "ok True" else "ok False"
+      | .error e => errName e
+    | _, _, _ => "bad-op"
+  | "filter" :: r :: a :: b :: c :: d :: e :: g :: svcs => match parseLoc [r, a, b, c, d, e, g], svcs.mapM parseSvc with
+    | some l, some svcs => match filterIdx l svcs with
+      | .ok idx => "ok " ++ Io.natList idx
+      | .error e => errName e
+    | _, _ => "bad-op"
+  | ["split", f, s] => match flag? f, ofArg s with
+    | some f, some s => match urlsplit (fun _ => f) s with
+      | some r => "ok " ++ " ".intercalate [toArg r.scheme, toArg r.netloc, toArg r.path, toArg r.query, toArg r.fragment]
+      | none => "err ValueError"
+    | _, _ => "bad-op"
+  | ["qsl", k, s] => match flag? k, ofArg s with
+    | some k, some s => "ok " ++ " ".intercalate ((parseQsl k s).map fun p => toArg p.1 ++ "=" ++ toArg p.2)
+    | _, _ => "bad-op"
+  | ["utf8", s] => match ofArg s with
+    | some s => if Utf8.valid s then "valid" else "repaired " ++ toArg (Utf8.repair s)
+    | none => "bad-op"
+  | ["quote", s] => match ofArg s with
+    | some s => "ok " ++ toArg (Percent.quote s)
+    | none => "bad-op"
+  | ["quoteplus", s] => match ofArg s with
+    | some s => "ok " ++ toArg (Percent.quotePlus s)
+    | none => "bad-op"
+  | ["quoteslash", s] => match ofArg s with
+    | some s => "ok " ++ toArg (Percent.quoteSlash s)
+    | none => "bad-op"
+  | ["unquote", s] => match ofArg s with
+    | some s => "ok " ++ toArg (unquoteStr s)
+    | none => "bad-op"
+  | _ => "bad-op")
+
+def main : IO Unit := Io.lineLoop stepLine ()
